@@ -111,7 +111,8 @@ func (c *Ctx) exploreBlock(p *sx.Path, w *depsWorld) *exploration {
 				okc = rc[0].(*sx.Struct).F[0].(sx.Ptr).Obj == w.block.Obj
 			}
 			e.addB("lookup", okc, "arrangement %s: Code.Address(0x%x) does not return the block", arr, ca)
-			addr = ca + 4
+			ln, _ := w.insField(ip, "bytes").(sx.Slice).Len.Uint64()
+			addr = ca + ln
 			lbs[i] = intv(w.call("(*deps.block).LowerBound", w.block, smt.BVI(int64(i), 64)))
 			ubs[i] = intv(w.call("(*deps.block).UpperBound", w.block, smt.BVI(int64(i), 64)))
 			e.addB("own-bounds", lbs[i] <= int64(i) && int64(i) <= ubs[i], "arrangement %s: position %d lies outside its reported bounds [%d, %d]", arr, i, lbs[i], ubs[i])
@@ -328,11 +329,12 @@ func init() {
 // codeLayouts: lists of blocks (template sequences); block k starts at
 // blockBase + 0x100*k, so address gaps separate the blocks.
 func codeLayouts() [][]blockSeq {
+	n := tix
 	return [][]blockSeq{
-		{{11}},
-		{{2, 1}, {11, 11}},
-		{{2}, {0, 18}, {3, 4}},
-		{{11}, {5}, {6, 7}, {2, 17}},
+		{{n("nop")}},
+		{{n("li x1,5"), n("mv x2,x1")}, {n("nop"), n("nop")}},
+		{{n("li x1,5")}, {n("addi x1,x1,1"), n("j T")}, {n("li x2,7"), n("sd x2,0(x1)")}},
+		{{n("nop")}, {n("ld x1,0(x2)")}, {n("fence"), n("ecall")}, {n("li x1,5"), n("jr x1")}},
 	}
 }
 
